@@ -29,6 +29,9 @@ CHECKS = {
  "C07": dict(level="model_checking", technique="exhaustive enumeration of small mode graphs with every action placement and order; per spec explicit-state BFS over the product (real state machine) x (reference mode-stack machine) bounded by stack depth, plus all strings up to a bound through the real driver",
    text="Every enumerated mode graph is searched in product with the reference machine: after each rule match the emitted event, the current mode and the whole mode stack must be what the documented stack discipline defines, with every written action taking effect in any order. Token texts (including accumulated fragment text) are compared on all short strings through the real simplelexer.",
    note="Trusted: internal/lx RefM. The mode stack makes the product infinite; it is explored to depth D and deeper pushes are counted as closed branches. Nothing is compared after an unmatched @pop_mode.", ref="DESIGN.md section C07"),
+ "C11": dict(level="model_checking", technique="bounded exhaustive enumeration of rule sets / mode graphs (nullable rules and accumulating fragments included); per spec explicit-state BFS of all reachable configurations of the real state machine with an exact livelock search (all input lengths), plus all byte strings up to a bound lexed to EOF by the real driver with a tiling oracle",
+   text="For every enumerated specification every reachable configuration of the real state machine is visited and, for every pending rune, non-consuming answers are followed until they consume, end, or provably repeat (livelock). All short byte strings are then lexed to EOF by the real simplelexer with a recorder: token texts, discarded stretches and error stretches must tile the input exactly once, in order.",
+   note="Trusted: the reconstruction of error stretches from the reference driver's skip-to-next-line behaviour. No reference lexer semantics is involved.", ref="DESIGN.md section C11"),
 }
 
 NA_REASON = "check not built yet (work in progress; see DESIGN.md for the plan)"
